@@ -161,3 +161,7 @@ def run(ctx):
     else:
         r.fail(rule, 'derived_signature_key_size:bits-to-bytes', 'derived_signature_key_size no longer divides the bit length by 8', loc=SP)
     r.floor(rule, 'policy_constants', n, 30)
+    # the nonces the keys are derived from are replaced, never appended to (rule shared with C14): otherwise the second derivation on
+    # one side uses old||new while the peer uses new
+    from .C14 import nonce_setters_replace
+    nonce_setters_replace(ctx)
